@@ -30,6 +30,13 @@ func (o *oC14) OnEvent(k *Kernel, ev *Event) {
 		if ev.Point == "pause.pause.broadcast" {
 			o.pauses++
 		}
+		if ev.Point == "wwq.verdict" && len(ev.raw) > 2 {
+			q, _ := ev.raw[0].(int)
+			m, _ := ev.raw[1].(int)
+			if p, _ := ev.raw[2].(bool); !p && q > m {
+				k.Probe("c14-warc-queue-watchdog-pauses")
+			}
+		}
 		return
 	}
 	switch {
